@@ -78,6 +78,8 @@ def run_shard(ctx):
             ctx.count("stopped_on_time_budget")
             break
         cfg = M.gen_config(rng, long_adapters=True, very_long=0.04)
+        if (len(cfg["seq"]), cfg["max_errors"]) in M.ROUNDING_PAIRS:
+            ctx.count("configs_where_errors_times_length_rounds_down")
         ad = M.build(cfg)
         if ad is None:
             ctx.count("config_rejected_or_out_of_domain")
